@@ -50,7 +50,21 @@ def _active_debugger_context(debugger: CodeDebugger | None):
         _clear_active_code_debugger()
 
 
-_global_event_counter = count()
+class _IndexCounter:
+    """Counter of creation indices: ``itertools.count`` with a readable next value."""
+
+    __slots__ = ("value",)
+
+    def __init__(self, start: int = 0):
+        self.value = start
+
+    def __next__(self) -> int:
+        v = self.value
+        self.value = v + 1
+        return v
+
+
+_global_event_counter = _IndexCounter()
 
 # Per-partition event counter — when set, Event/ProcessContinuation use this
 # instead of _global_event_counter.  Enables independent ordering per partition.
@@ -74,7 +88,12 @@ def reset_event_counter() -> None:
     deterministic sort indices starting from 0.
     """
     global _global_event_counter
-    _global_event_counter = count()
+    _global_event_counter = _IndexCounter()
+
+
+def _global_counter_value() -> int:
+    """Next index the global counter would hand out (every index it issued is smaller)."""
+    return _global_event_counter.value
 
 # Event-level tracing flag — disabled by default for performance.
 # When enabled, Event.invoke() records stack/trace spans in event.context.
